@@ -205,6 +205,7 @@ def solve_one(ob, timeout_ms):
     s.set('timeout', timeout_ms)
     s.add(*ob.pc)
     if ob.kind == 'cover':
+        s.set('timeout', min(timeout_ms, 1500))
         r = s.check()
         ob.seconds = time.time() - t
         ob.backend = 'z3'
@@ -213,12 +214,29 @@ def solve_one(ob, timeout_ms):
         if r == z3.unsat:
             ob.note = 'vacuous: unreachable'
         return
-    g = z3.simplify(ob.goal) if not z3.is_bool(ob.goal) or True else ob.goal
+    g = z3.simplify(ob.goal)
     if z3.is_true(g):
         ob.verdict, ob.backend, ob.seconds = 'proved', 'simplifier', time.time() - t
         return
-    s.add(z3.Not(ob.goal))
-    r = s.check()
+    has_q = any_quantifier(ob.pc + [ob.goal])
+    # portfolio: quantified VCs are unstable under z3's default mbqi; try E-matching only, then other seeds, then cvc5
+    configs = [{}]
+    if has_q:
+        configs = [{'smt.mbqi': False}, {}, {'smt.mbqi': False, 'smt.random_seed': 7}, {'smt.random_seed': 3}]
+    r = z3.unknown
+    note = ''
+    slice_ms = max(1000, timeout_ms // (len(configs) + (1 if has_q else 0)))
+    for k, cfg in enumerate(configs):
+        s = z3.Solver()
+        s.set('timeout', slice_ms if has_q else timeout_ms)
+        for kk, vv in cfg.items():
+            s.set(kk, vv)
+        s.add(*ob.pc)
+        s.add(z3.Not(ob.goal))
+        r = s.check()
+        if r != z3.unknown:
+            break
+        note = s.reason_unknown()
     ob.backend = 'z3'
     if r == z3.unsat:
         ob.verdict = 'proved'
@@ -227,13 +245,31 @@ def solve_one(ob, timeout_ms):
         ob.model = model_to_py(s.model())
     else:
         ob.verdict = 'undecided'
-        ob.note = s.reason_unknown()
-        r2 = cvc5_check(s)
+        ob.note = note
+        r2 = cvc5_check(s, timeout_s=max(10, timeout_ms // 1000))
         if r2 == 'unsat':
             ob.verdict, ob.backend = 'proved', 'cvc5'
         elif r2 == 'sat':
             ob.verdict, ob.backend = 'refuted', 'cvc5'
     ob.seconds = time.time() - t
+
+
+def any_quantifier(fs):
+    seen = set()
+    stack = list(fs)
+    n = 0
+    while stack and n < 20000:
+        f = stack.pop()
+        n += 1
+        if z3.is_quantifier(f):
+            return True
+        i = f.get_id()
+        if i in seen:
+            continue
+        seen.add(i)
+        if z3.is_app(f):
+            stack.extend(f.children())
+    return False
 
 
 def cvc5_check(solver, timeout_s=20):
